@@ -55,7 +55,7 @@ def shards(tier):
 def floors(tier):
     return {"cases": 20000, "no_checker_cases": 3000, "with_checker_cases": 10000, "unknown_name_cases": 1000,
             "nonstring_builtin_cases": 2000, "custom_return_cases": 300, "listed_raise_cases": 100,
-            "unlisted_raise_cases": 1000, "subclass_raise_cases": 100, "format_errors_seen": 2000, "nested_cases": 3000, "stateful_sequence_calls": 3000}
+            "unlisted_raise_cases": 1000, "subclass_raise_cases": 100, "format_errors_seen": 2000, "nested_cases": 3000, "stateful_sequence_calls": 3000, "reregistration_cases": 60}
 
 
 def wrappers(d, fmt):
@@ -270,6 +270,49 @@ def stateful_sequences(ctx, rng, d):
                 ctx.violation("format-error-vs-registered-function", case, "%d format error(s), the function returns %r" % (len(errs), want_ok))
 
 
+def reregistration_cases(ctx, d):
+    """Registering a function under a name the checker already knows replaces BOTH the function and its `raises`."""
+    import ipaddress
+    cls = impl.CLS[d]
+    plans = []
+    for name, old_exc in (("date", ValueError("boom")), ("ipv4", ipaddress.AddressValueError("boom")), ("regex", __import__("re").error("boom")),
+                          ("time", ValueError("boom")), ("ipv6", ipaddress.AddressValueError("boom"))):
+        if name in jsonschema.FormatChecker.checkers:
+            plans.append((name, None, old_exc))              # built-in registration first
+    plans.append(("custom", (Listed, KeyError), Listed("boom")))
+    plans.append(("custom", LookupError, KeyError("boom")))
+    for name, first_raises, exc in plans:
+        for second_raises, expect in (((), "propagate"), (Unlisted, "propagate"), (type(exc), "capture")):
+            chk = jsonschema.FormatChecker() if first_raises is None else jsonschema.FormatChecker(formats=())
+            if first_raises is not None:
+                chk.checks(name, raises=first_raises)(lambda instance: True)
+
+            def fn(instance, exc=exc):
+                raise exc
+            chk.checks(name, raises=second_raises)(fn)
+            case = {"draft": d, "format": name, "first_raises": repr(first_raises), "second_raises": repr(second_raises), "raised": repr(exc)}
+            ctx.case([d, "rereg", name, repr(first_raises), repr(second_raises)])
+            ctx.count("cases")
+            ctx.count("reregistration_cases")
+            for how in ("iter_errors", "conforms"):
+                try:
+                    if how == "iter_errors":
+                        errs = list(cls({"format": name}, format_checker=chk).iter_errors("x"))
+                        got = ("errors", errs)
+                    else:
+                        got = ("returned", chk.conforms("x", name))
+                except Exception as e:
+                    got = ("raised", e)
+                if expect == "propagate":
+                    if got[0] != "raised" or got[1] is not exc:
+                        ctx.violation("unlisted-exception-not-propagated", dict(case, via=how),
+                                      "after re-registration without that exception in `raises` got %r instead of the raised object" % (got,))
+                else:
+                    ok = (got[0] == "errors" and len(got[1]) == 1 and got[1][0].cause is exc) or (got == ("returned", False))
+                    if not ok:
+                        ctx.violation("listed-exception-no-error", dict(case, via=how), "got %r" % (got,))
+
+
 def run(ctx):
     impl.quiet()
     checkers = {"none": None, "FormatChecker()": jsonschema.FormatChecker()}
@@ -287,6 +330,7 @@ def run(ctx):
             custom_cases(ctx, rr, d)
             for _ in range(6):
                 stateful_sequences(ctx, rr, d)
+            reregistration_cases(ctx, d)
         for name in allnames + UNKNOWN:
             for cname, chk in checkers.items():
                 idx += 1
